@@ -15,7 +15,11 @@
 (* Dev (negative controls): "SHAREDSLICE" Ctx appends into the shared      *)
 (* backing array; "NOONCE" Render is check-then-set without a guard;       *)
 (* "SHAREDRENDER" the Renderer middleware re-binds ONE render object       *)
-(* instead of creating one per request.                                    *)
+(* instead of creating one per request; "SHAREDSRC" Recovery keeps the     *)
+(* source file it last read (for the stack listing) in the middleware      *)
+(* closure instead of in the call.                                         *)
+(*   Rec      Recovery formats the panic of a "panic" route: stack frames  *)
+(*            with source lines from a per-call file cache, then answers   *)
 (***************************************************************************)
 EXTENDS ConcurrentP, Json
 CONSTANTS NProc, Dev, EmitCases
@@ -25,7 +29,7 @@ VARIABLES req, pc, params, hl, scope, out, arr, cache, seen, W, sched,
           rend      \* which request's writer the Render object seen by request p writes to (0 = the one shared cell)
 vars == <<req, pc, params, hl, scope, out, arr, cache, seen, W, sched, rend>>
 
-ReqU == { [id |-> p, route |-> k, val |-> v] : p \in Procs, k \in {"static", "param", "render"}, v \in Vals }
+ReqU == { [id |-> p, route |-> k, val |-> v] : p \in Procs, k \in {"static", "param", "render", "panic"}, v \in Vals }
 Init == /\ req \in { f \in [Procs -> ReqU] : \A p \in Procs : f[p].id = p }
         /\ pc = [p \in Procs |-> "lookup"] /\ params = [p \in Procs |-> <<>>]
         /\ hl = [p \in Procs |-> <<>>] /\ scope = [p \in Procs |-> {}] /\ out = [p \in Procs |-> <<>>]
@@ -68,7 +72,7 @@ H1(p) == /\ pc[p] = "h1"
             ELSE UNCHANGED <<rend, W>>
          /\ pc' = [pc EXCEPT ![p] = "h2"] /\ sched' = Append(sched, p)
          /\ UNCHANGED <<req, params, hl, out, arr, cache, seen>>
-H2(p) == /\ pc[p] = "h2"
+H2(p) == /\ pc[p] = "h2" /\ req[p].route # "panic"
          /\ LET h == IF hl[p] = <<"alias">> THEN arr[2] ELSE hl[p][2]
                 tg == CHOOSE t \in scope[p] : TRUE
             IN out' = [out EXCEPT ![p] = [h |-> h, val |-> IF HasVal(params[p].route) THEN params[p].val ELSE "",
@@ -77,7 +81,18 @@ H2(p) == /\ pc[p] = "h2"
                                           wid |-> IF req[p].route = "render" /\ "SHAREDRENDER" \in Dev THEN rend[0] ELSE p]]
          /\ pc' = [pc EXCEPT ![p] = "done"] /\ sched' = Append(sched, p)
          /\ UNCHANGED <<req, params, hl, scope, arr, cache, seen, W, rend>>
-Next == \E p \in Procs : Lookup(p) \/ RenderOnce(p) \/ RenderCheck(p) \/ RenderSet(p) \/ Ctx(p) \/ H1(p) \/ H2(p)
+\* the route handler panics; the deferred function of Recovery (an earlier middleware of the same request) formats the
+\* stack - reading source files through a cache of the last file - and answers on this request's writer
+H2Panic(p) == /\ pc[p] = "h2" /\ req[p].route = "panic"
+              /\ pc' = [pc EXCEPT ![p] = "rec"] /\ sched' = Append(sched, p)
+              /\ UNCHANGED <<req, params, hl, scope, out, arr, cache, seen, W, rend>>
+Rec(p) == /\ pc[p] = "rec"
+          /\ W' = IF "SHAREDSRC" \in Dev THEN W \cup {<<"src", p>>} ELSE W
+          /\ LET tg == CHOOSE t \in scope[p] : TRUE
+             IN out' = [out EXCEPT ![p] = [h |-> "panic", val |-> params[p].val, tag |-> tg, url |-> "/p/" \o params[p].val, wid |-> p]]
+          /\ pc' = [pc EXCEPT ![p] = "done"]
+          /\ UNCHANGED <<req, params, hl, scope, arr, cache, seen, sched, rend>>
+Next == \E p \in Procs : H2Panic(p) \/ Rec(p) \/ Lookup(p) \/ RenderOnce(p) \/ RenderCheck(p) \/ RenderSet(p) \/ Ctx(p) \/ H1(p) \/ H2(p)
 Spec == Init /\ [][Next]_vars
 
 SerialEquivalence == \A p \in Procs : pc[p] = "done" => out[p] = Serial(req[p])
